@@ -211,8 +211,12 @@ class Result:
             else:
                 out_viol.append(v)
         wall = time.time() - self.t0
+        byid = {}
         for kf, v in known_hits:
-            print('KNOWN-FINDING: property=%s %s [%s] %s: %s' % (self.prop, kf['id'], v['rule'], v['site'], v['msg']))
+            byid.setdefault(kf['id'], []).append(v)
+        for kid, vs in byid.items():
+            v = vs[0]
+            print('KNOWN-FINDING: property=%s %s [%s] %s: %s%s' % (self.prop, kid, v['rule'], v['site'], v['msg'], (' (+%d more instances at the same site)' % (len(vs) - 1)) if len(vs) > 1 else ''))
         code = 0
         if self.broken:
             for b in self.broken:
